@@ -186,7 +186,7 @@ DoCall(stmt) ==
       pd == s1.pend
   IN IF pd.serr # "" THEN
        LET e2 == [ev |-> IF stmt.s = "bf" THEN "bf_end" ELSE "sb_end", inv |-> FALSE, out |-> "raised",
-                  err |-> pd.serr, same |-> FALSE, ret |-> TNone, real |-> "none", fault |-> FALSE]
+                  err |-> pd.serr, same |-> FALSE, ret |-> TNone, real |-> "none", fault |-> FALSE, base |-> FALSE]
        IN /\ s' = Apply(s1, e2)
           /\ bad' = Note(IF Check(s, e1) # "" THEN Check(s, e1) ELSE Check(s1, e2))
           /\ UNCHANGED preds
@@ -195,7 +195,7 @@ DoCall(stmt) ==
            \* what the reuse rule predicts (state after serving the record from the cache)
            eR == [ev |-> IF stmt.s = "bf" THEN "bf_end" ELSE "sb_end", inv |-> FALSE, out |-> "ok",
                   err |-> "", same |-> FALSE, ret |-> IF pd.lk.found THEN pd.lk.r.ret ELSE TNone,
-                  real |-> "file", fault |-> FALSE]
+                  real |-> "file", fault |-> FALSE, base |-> FALSE]
            pred == IF pd.lk.found /\ pd.lk.valid
                    THEN [on |-> TRUE, valid |-> TRUE, fuzzy |-> pd.lk.fuzzy, r |-> pd.lk.r,
                          post |-> LET sR == Apply(s1, eR) IN
@@ -278,7 +278,7 @@ DoEnd(stmt) ==
                   err |-> IF ok THEN "" ELSE IF stmt.s = "ret" THEN "RuntimeError" ELSE xerr,
                   same |-> ~ok /\ stmt.s # "ret", ret |-> IF ok THEN TStr("r") ELSE TNone,
                   real |-> IF ok THEN "file" ELSE IF fr.kind = "bf" /\ DirAtTarget(fr) THEN "dir" ELSE "none",
-                  fault |-> FALSE]
+                  fault |-> FALSE, base |-> FALSE]
            s2 == Apply(s1, e2)
            newrec == Top(s2).subs[Len(Top(s2).subs)]
            rv == ReuseVerdict(s2, preds[Len(preds)], newrec, s)
